@@ -12,6 +12,7 @@ RULE = "one evaluation = one seeded backtest: single and multi-order trades, tra
 ASSUMPTIONS = [
     "75% World A backtests (simulated exchange), 25% World B live sessions against the exchange double (legitimate replies and injected API faults, no restarts)",
     "observation points: every status change, every request, every package and its execution, end of every update",
+    "a placement refused with a cool-down as the stated reason is judged against the harness clock read at the instants flumine stamps the runner (RunnerContext.place / reset): refused although the cool-down has elapsed is a violation (C10.not-locked)",
     "half of the live sessions set place_reset_seconds (0.5 s .. 600 s) on their placements and receive 1-3 bets of another instance of the strategy, placed 0 .. 4000 s earlier, through the order stream; 35% of the live sessions let a submitted request run (up to the processing of its reply) before submit() returns, 40% report each bet in an order-stream message of its own",
 ]
 from . import C11 as _c11
